@@ -2,7 +2,7 @@
    removal of insignificant whitespace (whitespace outside string literals, RFC 8259
    section 2) and the canonical compact rendering of a tree. *)
 From Coq Require Import List NArith ZArith Bool.
-From PB Require Import Base.PBytes Json.JsonUtf8 Json.JsonGrammar Json.JsonEncModel.
+From PB Require Import Base.PBytes Json.JsonUtf8 Json.JsonGrammar Json.JsonLexModel Json.JsonEncModel Json.JsonStrict.
 Import ListNotations.
 
 Inductive sq_state := SqOut | SqIn | SqEsc.
@@ -45,4 +45,18 @@ Fixpoint compact (t : jtree) : list byte :=
   | TArr l => c_lbrack :: join_comma (map compact l) ++ [c_rbrack]
   | TObj l => c_lbrace :: join_comma (map (fun kv => fst (append_string (fst kv)) ++ c_colon :: compact (snd kv)) l)
                 ++ [c_rbrace]
+  end.
+
+(* the tokens the Decoder yields for a rendering of the tree (positions excluded) *)
+Fixpoint tree_toks (t : jtree) : list atok :=
+  match t with
+  | TNull => [(KNull, lit_null, false, [])]
+  | TBool b => [(KBool, if b then lit_true else lit_false, b, [])]
+  | TStr s => [(KString, fst (append_string s), false, s)]
+  | TInt z => [(KNumber, dec_int z, false, [])]
+  | TUint n => [(KNumber, dec_digits n, false, [])]
+  | TArr l => a_punct KArrOpen c_lbrack :: flat_map tree_toks l ++ [a_punct KArrClose c_rbrack]
+  | TObj l => a_punct KObjOpen c_lbrace
+              :: flat_map (fun kv => (KName, fst (append_string (fst kv)), false, fst kv) :: tree_toks (snd kv)) l
+              ++ [a_punct KObjClose c_rbrace]
   end.
